@@ -11,17 +11,22 @@ from vlib.core import *
 
 SPEC = os.path.join(VERIF, "specs", "SeqAlloc")
 HARNESS = ["harness/db/c07_seqalloc_test.go"]
-MAX_FINDINGS = 4          # distinct failing behaviours reported per run
+MAX_FINDINGS = 12         # failing behaviours confirmed and reported per replay family
 
 
 def run(ctx):
     if getattr(ctx, "replay", None):
         rp = json.load(open(ctx.replay))["replay"]
-        replay_and_validate(ctx, [rp["behaviour"]], "replay")
+        if rp.get("family") == "doc":
+            tr, rows = replay(ctx, DOC, [rp["behaviour"]], "replay")
+            ctx.cov["evaluations"] += 1
+            pass_p(ctx, DOC, [rp["behaviour"]], rows, tr, "replay")
+        else:
+            replay_and_validate(ctx, [rp["behaviour"]], "replay")
         return
-    model_check(ctx, SPEC, "MC_SeqAlloc", "MC_SeqAlloc.cfg", timeout=1500)
-    if not ctx.quick():
-        model_check(ctx, SPEC, "MC_SeqAlloc", "MC_SeqAlloc_thorough.cfg", timeout=3000)
+    # exhaustive: 2 allocators x 8 actions and 3 allocators x 5 actions (quick); 3 x 7 and 2 x 9, counter <= 14 (thorough)
+    for cfg in (("MC_SeqAlloc.cfg", "MC_SeqAlloc_3.cfg") if ctx.quick() else ("MC_SeqAlloc_thorough.cfg", "MC_SeqAlloc_thorough2.cfg")):
+        model_check(ctx, SPEC, "MC_SeqAlloc", cfg, timeout=3000)
     ctx.cov["exhaustive"] = True
     rnd = random.Random(ctx.seed)
     # every behaviour of a small instance (2 allocators, every action-level interleaving, growth on and off)
@@ -29,55 +34,162 @@ def run(ctx):
     ctx.cov["beh_small_instance_total"] = len(allb)
     if ctx.quick() and len(allb) > 2000:
         allb = rnd.sample(allb, 2000)
+    elif not ctx.quick():
+        deeper = behaviours(ctx, SPEC, "MC_SeqAlloc", "Beh_SeqAlloc_thorough.cfg", timeout=1800)    # every action sequence of length 5 ...
+        ctx.cov["beh_small_instance_len5_total"] = len(deeper)
+        allb += rnd.sample(deeper, min(len(deeper), 12000))                                         # ... a seeded sample of them
     ctx.cov["beh_small_instance_replayed"] = len(allb)
     # deeper seeded simulations, 3 allocators: action-level interleavings, then call-level ones
     fine = behaviours(ctx, SPEC, "MC_SeqAlloc", "Sim_SeqAlloc.cfg", num=150 if ctx.quick() else 2500, depth=18, timeout=900)
     coarse = behaviours(ctx, SPEC, "MC_SeqAlloc", "Sim_SeqAlloc_coarse.cfg", num=100 if ctx.quick() else 1500, depth=26, timeout=900)
     ctx.cov["beh_sim_fine"], ctx.cov["beh_sim_call_level"] = len(fine), len(coarse)
-    behs = allb + fine + coarse
-    chunk = 3000
+    # every behaviour of length 6 of the in-batch family (growing batches, nextSequenceGreaterThan inside the batch, idle release)
+    batch = behaviours(ctx, SPEC, "MC_SeqAlloc", "Beh_SeqAlloc_batch.cfg", timeout=900)
+    ctx.cov["beh_in_batch_family"] = len(batch)
+    behs = allb + batch + fine + coarse
+    chunk = 3000 if ctx.quick() else 8000
     for i in range(0, len(behs), chunk):
         replay_and_validate(ctx, behs[i:i + chunk], "part%d" % (i // chunk))
+    doc_level(ctx)
     ctx.cov["rule"] = ("behaviours = every action sequence of length 4 of the 2-allocator instance (quick: a seeded sample of 2000 of them) "
+                       "+ every action sequence of length 6 of the in-batch family (Next / in-batch nextSequenceGreaterThan / idle release, growth on) "
                        "+ seeded TLC simulations over 3 allocators, length <= 16 at action granularity (storage operations of "
                        "nextSequenceGreaterThan interleaved across allocators) and length <= 24 at call granularity; each is drained and "
                        "stopped at the end so Accounted is evaluated at quiescence on every one. non-trivial = the behaviour wrote at "
                        "least one unused-sequence range from nextSequenceGreaterThan or an idle/stop release; 'raced' = another "
                        "allocator moved _sync:seq between the Get and the Incr of a nextSequenceGreaterThan call")
+    ctx.cov["rule"] += ("; document level: every scenario of specs/SeqAlloc/SeqDoc.tla (one writer losing up to 2 (quick) / 3 (thorough) CAS races to "
+                        "sibling or same-revision writers, then success / rejection / cancel / storage error / timeout; UpdatePrincipal with CAS "
+                        "mismatches then success / storage error) on a real database, ledger = stored sequences + unused_sequences + "
+                        "unused-sequence documents + counter")
     ctx.assumptions += ["writes of the unused-sequence notices are not fault-injected; _sync:seq rollback (_fixSyncSeqRollback) is not modelled",
-                        "a number returned by the allocator and not given back counts as used/outstanding (the document-level fate of a number "
-                        "- crud.go/users.go error paths, DESIGN section 7 F2/F3 - is not decided by this component-level check)",
+                        "component level: a number returned by the allocator and not given back counts as used/outstanding; its fate in the "
+                        "write path is decided by the document-level scenarios (single node, allow_conflicts=true so that a writer can lose "
+                        "several CAS races and still be valid)",
                         "model batch cap is 4 in the exhaustive run; behaviours are generated and replayed with the code's cap 10"]
 
 
-def split_behaviours(rows):
-    """-> [(beh index, a, b)] per Reset-delimited segment: a = 1-based line of the Reset, b = 1-based line of its
-    last step; rows[a-1:b] is the segment"""
+class Family:
+    """one replay family: Go test, trace module, name of the line that starts a behaviour"""
+    def __init__(self, name, test, module, reset, what):
+        self.name, self.test, self.module, self.reset, self.what = name, test, module, reset, what
+
+
+ALLOC = Family("alloc", "^TestVerif_C07_SeqAlloc$", "Trace_SeqAlloc", "Reset", "real sequenceAllocator")
+DOC = Family("doc", "^TestVerif_C07_DocLedger$", "Trace_SeqDoc", "DReset", "real document/principal write path")
+
+
+def split_behaviours(rows, fam):
+    """-> [(beh index, a, b)] per segment: a = 1-based line of its Reset line, b = 1-based line of its last line;
+    rows[a-1:b] is the segment"""
     segs, start, idx = [], None, None
     for i, r in enumerate(rows):
-        if r["a"] == "Reset":
+        if r["a"] == fam.reset:
             if start is not None:
                 segs.append((idx, start, i))
-            start, idx = i + 1, r["beh"]
+            start, idx = i + 1, r["beh"] if "beh" in r else r["sc"]
     if start is not None:
         segs.append((idx, start, len(rows)))
     return segs
 
 
-def replay(ctx, behs, tag):
-    bf = os.path.join(ctx.scratch, "c07-beh-%s.json" % tag)
-    tr = os.path.join(ctx.scratch, "c07-%s.ndjson" % tag)
+def replay(ctx, fam, behs, tag):
+    bf = os.path.join(ctx.scratch, "c07-%s-beh-%s.json" % (fam.name, tag))
+    tr = os.path.join(ctx.scratch, "c07-%s-%s.ndjson" % (fam.name, tag))
     write_json(bf, behs)
-    rc, out = go_test(ctx, "db", "^TestVerif_C07_SeqAlloc$", HARNESS,
+    rc, out = go_test(ctx, "db", fam.test, HARNESS,
                       env={"VERIF_BEH": bf, "VERIF_TRACE_OUT": tr, "SG_TEST_LOG_LEVEL": "error"}, timeout=1500)
     if rc != 0 or not os.path.exists(tr):
-        raise Inconclusive("C07 harness failed:\n" + harness_failure(out))
+        raise Inconclusive("C07 harness %s failed:\n%s" % (fam.test, harness_failure(out)))
     return tr, read_ndjson(tr)
 
 
+def beh_key(fam, beh):
+    if fam is DOC:
+        beh = {"mode": beh["mode"], "reject": beh["reject"], "steps": beh["steps"]}
+    return json.dumps(beh, sort_keys=True, separators=(",", ":"))
+
+
+def run_p(ctx, fam, rows, tr, tag):
+    """one pass-P run; -> {(beh index, predicate): first failing line relative to the behaviour}"""
+    vp = validate(ctx, SPEC, fam.module, fam.module + "_P.cfg", tr, timeout=1500, tag="P-%s-%s" % (fam.name, tag))
+    if vp.inv:
+        raise Inconclusive("pass P (%s): unexpected TLC invariant stop %s at line %s" % (fam.name, vp.inv, vp.line))
+    if not vp.accepted:
+        raise Inconclusive("pass P (%s) stopped at line %s of %s (trace shape not accepted)\n%s" % (fam.name, vp.line, vp.total, vp.out[-1500:]))
+    segs = split_behaviours(rows, fam)
+    found = {}
+    for t, txt in parse_printed(vp.out):
+        if t != "VIOL":
+            continue
+        name, l = json.loads("[" + txt + "]")
+        line = l - 1                          # the reporting state has consumed line l-1
+        for idx, a, b in segs:
+            if a <= line <= b:
+                k = (idx, name)
+                found[k] = min(found.get(k, line - a), line - a)
+                break
+        else:
+            raise Inconclusive("pass P (%s): %s reported at line %s but no behaviour found there" % (fam.name, name, line))
+    return found
+
+
+def pass_p(ctx, fam, behs, rows, tr, tag):
+    """pass P on the recorded real values: TLC evaluates the property predicates on every recorded state and reports
+    every failure.  Failing behaviours are replayed once more on their own (reproduce-twice rule) and then reported;
+    -> (rows, trace path) without the failing behaviours (for pass C)"""
+    found = run_p(ctx, fam, rows, tr, tag)
+    if not found:
+        return rows, tr
+    bad = sorted({idx for idx, _ in found})
+    shown = bad[:MAX_FINDINGS]
+    if len(bad) > len(shown):
+        ctx.notes.append("%d failing behaviours in %s/%s; the first %d are reported" % (len(bad), fam.name, tag, len(shown)))
+    tr2, rows2 = replay(ctx, fam, [behs[i] for i in shown], "confirm-%s" % tag)
+    again = run_p(ctx, fam, rows2, tr2, "confirm-%s" % tag)
+    segs2 = {idx: (a, b) for idx, a, b in split_behaviours(rows2, fam)}
+    keep = ("a", "n", "x", "ret", "fl", "rel", "give", "counter", "last", "max", "batch", "docs", "seq", "unused", "ctr", "base", "err", "k", "id")
+    for j, i in enumerate(shown):
+        for (idx, name), rel_line in sorted(found.items()):
+            if idx != i:
+                continue
+            if (j, name) not in again:
+                raise Inconclusive("pass P reported %s on behaviour %s but the stand-alone replay did not (not reproducible)" % (
+                    name, beh_key(fam, behs[i])[:400]))
+            a, b = segs2[j]
+            report_violation(ctx, "%s:%s" % (name, beh_key(fam, behs[i])),
+                             "%s breaks %s (line %s of the recorded run of %s)" % (
+                                 fam.what, name, rel_line, json.dumps(behs[i]["steps"], separators=(",", ":"))[:300]),
+                             {"family": fam.name, "behaviour": behs[i], "invariant": name,
+                              "real_trace": [{k: r[k] for k in keep if k in r} for r in rows2[a - 1:b]]})
+    cut = []
+    badset = set(bad)
+    for idx, a, b in split_behaviours(rows, fam):
+        if idx not in badset:
+            cut += rows[a - 1:b]
+    if not cut:
+        return [], None
+    cut_tr = os.path.join(ctx.scratch, "c07-%s-%s-cut.ndjson" % (fam.name, tag))
+    write_ndjson(cut_tr, cut)
+    return cut, cut_tr
+
+
+def pass_c(ctx, fam, rows, tr, tag, n_behs, extra_bad=0):
+    if not rows:
+        return
+    vc = validate(ctx, SPEC, fam.module, fam.module + "_C.cfg", tr, timeout=1500, tag="C-%s-%s" % (fam.name, tag))
+    if vc.inv or not vc.accepted or extra_bad:
+        ctx.cov["nonconformance"] += 1
+        ctx.notes.append("pass C (%s/%s): rejected at line %s (%s): %s; behaviours the harness could not follow to the end: %d" % (
+            fam.name, tag, vc.line, vc.inv, json.dumps(rows[vc.line - 2])[:600] if vc.line and 2 <= vc.line <= len(rows) + 1 else None, extra_bad))
+    else:
+        ctx.cov["traces_validated_against_impl"] += n_behs
+
+
 def replay_and_validate(ctx, behs, tag):
-    tr, rows = replay(ctx, behs, tag)
-    segs = split_behaviours(rows)
+    fam = ALLOC
+    tr, rows = replay(ctx, fam, behs, tag)
+    segs = split_behaviours(rows, fam)
     if len(segs) != len(behs):
         raise Inconclusive("C07 harness recorded %d of %d behaviours" % (len(segs), len(behs)))
     ctx.cov["evaluations"] += len(behs)
@@ -86,8 +198,7 @@ def replay_and_validate(ctx, behs, tag):
         seg = rows[a - 1:b]
         if any(r.get("rel") and r["a"] in ("GTBegin", "PendRel", "Idle", "Stop") for r in seg):
             nontriv += 1
-        prev = None
-        hit = False
+        prev, hit = None, False
         for r in seg:
             if r["a"] == "GTFinish" and prev is not None and prev.get("pc") and prev["pc"][r["n"] - 1]["st"] == "got" \
                     and prev["counter"] != prev["pc"][r["n"] - 1]["sync"]:
@@ -101,58 +212,34 @@ def replay_and_validate(ctx, behs, tag):
     ctx.cov["distinct_nontrivial"] += nontriv
     ctx.cov["raced_get_incr"] = ctx.cov.get("raced_get_incr", 0) + raced
     ctx.cov["with_post_unlock_release"] = ctx.cov.get("with_post_unlock_release", 0) + pendrel
-    mid = segs[len(segs) // 2]
     for idx, a, b in segs:
         if any(r["a"] == "PendRel" and r["ret"] for r in rows[a - 1:b]) and len(ctx.cov["samples"]) < 2:
             ctx.sample({"behaviour": behs[idx], "real_trace": [{k: r[k] for k in ("a", "n", "x", "ret", "fl", "rel", "counter", "last", "max", "batch") if k in r}
                                                              for r in rows[a - 1:b]]})
             break
-    # ---- pass P: the property on real values.  A failing behaviour is reported, cut out, and the rest re-validated.
-    cur_rows, cur_tr = rows, tr
-    for attempt in range(MAX_FINDINGS + 1):
-        vp = validate(ctx, SPEC, "Trace_SeqAlloc", "Trace_SeqAlloc_P.cfg", cur_tr, timeout=1500, tag="P-%s-%d" % (tag, attempt))
-        if not vp.inv:
-            if not vp.accepted:
-                raise Inconclusive("pass P stopped at line %s of %s (trace shape not accepted)\n%s" % (vp.line, vp.total, vp.out[-1500:]))
+    rows2, tr2 = pass_p(ctx, fam, behs, rows, tr, tag)
+    pass_c(ctx, fam, rows2, tr2, tag, len(split_behaviours(rows2, fam)), diverged)      # conformance of the behaviours without findings
+
+
+def doc_level(ctx):
+    """document level: scenarios of specs/SeqAlloc/SeqDoc.tla on a real database"""
+    fam = DOC
+    # exhaustive: every scenario with <= 2 (quick) / 3 (thorough) lost CAS races; checks Monotone/DocAccounted on the model too
+    scns = behaviours(ctx, SPEC, "MC_SeqDoc", "MC_SeqDoc.cfg" if ctx.quick() else "MC_SeqDoc_thorough.cfg", timeout=600)
+    run = ctx.cov["tlc_runs"][-1]
+    ctx.cov["states"] += run["distinct"]
+    ctx.cov["transitions"] += run["generated"]
+    tr, rows = replay(ctx, fam, scns, "scn")
+    segs = split_behaviours(rows, fam)
+    if len(segs) != len(scns):
+        raise Inconclusive("C07 doc harness recorded %d of %d scenarios" % (len(segs), len(scns)))
+    ctx.cov["evaluations"] += len(scns)
+    ctx.cov["doc_scenarios"] = len(scns)
+    ctx.cov["doc_scenarios_with_cas_retry"] = sum(1 for s in scns if any(st["a"] == "Env" or st["k"] == "cas" for st in s["steps"]))
+    ctx.cov["distinct_nontrivial"] += ctx.cov["doc_scenarios_with_cas_retry"]
+    for idx, a, b in segs:
+        if sum(1 for st in scns[idx]["steps"] if st["a"] == "Env") >= 2 and scns[idx]["steps"][-1]["k"] == "ok":
+            ctx.sample({"scenario": scns[idx]["steps"], "real_ledger": [{k: r[k] for k in ("a", "seq", "unused", "ctr", "docs", "base") if k in r} for r in rows[a - 1:b]]})
             break
-        csegs = split_behaviours(cur_rows)
-        # the violating state has consumed line l-1
-        line = (vp.line or 2) - 1
-        hit = [s for s in csegs if s[1] <= line <= s[2]]
-        if not hit:
-            raise Inconclusive("pass P: %s violated at line %s but no behaviour found there" % (vp.inv, vp.line))
-        idx, a, b = hit[0]
-        beh = behs[idx]
-        confirm_and_report(ctx, vp.inv, beh, cur_rows[a - 1:b], line - a, vp)
-        if attempt == MAX_FINDINGS:
-            ctx.notes.append("more than %d failing behaviours in %s; the rest was not examined" % (MAX_FINDINGS, tag))
-            return
-        cur_rows = cur_rows[:a - 1] + cur_rows[b:]          # drop the behaviour (Reset line a .. line b, 1-based)
-        cur_tr = os.path.join(ctx.scratch, "c07-%s-cut%d.ndjson" % (tag, attempt))
-        write_ndjson(cur_tr, cur_rows)
-        if not cur_rows:
-            return
-    if cur_rows is not rows:
-        return                      # conformance is not examined on a run that produced findings
-    # ---- pass C: conformance
-    vc = validate(ctx, SPEC, "Trace_SeqAlloc", "Trace_SeqAlloc_C.cfg", tr, timeout=1500, tag="C-%s" % tag)
-    if vc.inv or not vc.accepted or diverged:
-        ctx.cov["nonconformance"] += 1
-        ctx.notes.append("pass C (%s): rejected at line %s (%s): %s; behaviours the harness could not follow to the end: %d" % (
-            tag, vc.line, vc.inv, json.dumps(rows[vc.line - 1])[:600] if vc.line and vc.line <= len(rows) else None, diverged))
-    else:
-        ctx.cov["traces_validated_against_impl"] += len(behs)
-
-
-def confirm_and_report(ctx, inv, beh, seg, rel_line, vp):
-    """reproduce-twice rule: the failing behaviour is replayed alone; only then it is a finding"""
-    tr2, rows2 = replay(ctx, [beh], "confirm%d" % len(ctx.cov["go_runs"]))
-    v2 = validate(ctx, SPEC, "Trace_SeqAlloc", "Trace_SeqAlloc_P.cfg", tr2, timeout=600, tag="P-confirm")
-    if v2.inv != inv:
-        raise Inconclusive("pass P reported %s on behaviour %s but the stand-alone replay gave %s (not reproducible)" % (
-            inv, json.dumps(beh, sort_keys=True)[:400], v2.inv))
-    key = "%s:%s" % (inv, json.dumps(beh, sort_keys=True, separators=(",", ":")))
-    slim = [{k: r[k] for k in ("a", "n", "x", "ret", "fl", "rel", "give", "counter", "last", "max", "batch", "docs") if k in r} for r in rows2[1:]]
-    report_violation(ctx, key, "real sequenceAllocator breaks %s (step %s of the recorded run of behaviour %s)" % (
-        inv, rel_line, json.dumps(beh["steps"], separators=(",", ":"))[:300]),
-        {"behaviour": beh, "invariant": inv, "real_trace": slim, "state": (vp.state or {}).get("_txt")})
+    rows2, tr2 = pass_p(ctx, fam, scns, rows, tr, "scn")
+    pass_c(ctx, fam, rows2, tr2, "scn", len(split_behaviours(rows2, fam)))
